@@ -118,7 +118,7 @@ impl Property for C16 {
     }
 
     fn budget(tier: Tier) -> u64 {
-        tier.pick(60_000, 1_500_000)
+        tier.pick(60_000, 45_000)
     }
 
     fn rule() -> &'static str {
